@@ -43,13 +43,13 @@ theorem sumA_indicator (D L a : Nat) (A : Nat → Nat → Nat) (ℓ0 : Nat) (v k
       · rw [if_neg h2, if_neg (by omega)]
 
 section
-variable (D L u : Nat) (leaves : List Nat) (a b : Nat) (ha : a ∈ leaves) (hb : b ∈ leaves)
+variable (D L u : Nat) (leavesT leavesS : List Nat) (a b : Nat) (ha : a ∈ leavesT) (hb : b ∈ leavesS)
 
 include ha hb
 
 /-- the value left by the transfer phase in the local of `a`'s ancestor at level `ℓ` -/
 theorem Aval_anc (ℓ : Nat) :
-    Aval D L u (fun ℓ => specCells D L leaves ℓ) b ℓ (anc D L ℓ a) = 1 ↔
+    Aval D L u (fun ℓ => specCells D L leavesT ℓ) (fun ℓ => specCells D L leavesS ℓ) b ℓ (anc D L ℓ a) = 1 ↔
       (u ≤ ℓ ∧ ℓ ≤ L ∧ 2 ≤ ℓ ∧ Far.inter (L - ℓ) (decode D L a) (decode D L b)) := by
   unfold Aval
   by_cases h : u ≤ ℓ ∧ ℓ ≤ L
@@ -58,32 +58,32 @@ theorem Aval_anc (ℓ : Nat) :
     constructor
     · intro h1
       have hmem : Elem.m2l ℓ (anc D L ℓ a) (anc D L ℓ b) (m2lCode D ℓ (anc D L ℓ a) (anc D L ℓ b)) ∈
-          specM2LLevel D false ℓ (specCells D L leaves ℓ) (specCells D L leaves ℓ) := by
+          specM2LLevel D false ℓ (specCells D L leavesT ℓ) (specCells D L leavesS ℓ) := by
         by_cases hm : Elem.m2l ℓ (anc D L ℓ a) (anc D L ℓ b) (m2lCode D ℓ (anc D L ℓ a) (anc D L ℓ b)) ∈
-            specM2LLevel D false ℓ (specCells D L leaves ℓ) (specCells D L leaves ℓ)
+            specM2LLevel D false ℓ (specCells D L leavesT ℓ) (specCells D L leavesS ℓ)
         · exact hm
         · simp [hm] at h1
       have h2 := ((mem_specM2L_np D ℓ _ _ _ _ _).1 hmem).1
       refine ⟨h.1, h.2, h2, ?_⟩
-      have := (m2l_between_ancestors_iff D L leaves a b ha hb (L - ℓ) (by omega)).1
+      have := (m2l_between_ancestors_iff2 D L leavesT leavesS a b ha hb (L - ℓ) (by omega)).1
       rw [hk] at this
       exact this ⟨_, hmem⟩
     · rintro ⟨_, _, h2, hi⟩
-      have := (m2l_between_ancestors_iff D L leaves a b ha hb (L - ℓ) (by omega)).2 hi
+      have := (m2l_between_ancestors_iff2 D L leavesT leavesS a b ha hb (L - ℓ) (by omega)).2 hi
       rw [hk] at this
       obtain ⟨c, hc⟩ := this
       have hc' := hc
       rw [mem_specM2L_np] at hc'
       obtain ⟨_, _, _, _, _, rfl⟩ := hc'
       have : Elem.m2l ℓ (anc D L ℓ a) (anc D L ℓ b) (m2lCode D ℓ (anc D L ℓ a) (anc D L ℓ b)) ∈
-          specM2LLevel D false ℓ (specCells D L leaves ℓ) (specCells D L leaves ℓ) := hc
+          specM2LLevel D false ℓ (specCells D L leavesT ℓ) (specCells D L leavesS ℓ) := hc
       simp [this]
   · rw [if_neg h]
     constructor
     · intro h1; exact absurd h1 (by omega)
     · rintro ⟨h1, h2, _, _⟩; exact absurd ⟨h1, h2⟩ h
 
-theorem Aval_le_one (ℓ i : Nat) : Aval D L u (fun ℓ => specCells D L leaves ℓ) b ℓ i ≤ 1 := by
+theorem Aval_le_one (ℓ i : Nat) : Aval D L u (fun ℓ => specCells D L leavesT ℓ) (fun ℓ => specCells D L leavesS ℓ) b ℓ i ≤ 1 := by
   unfold Aval
   split
   · split <;> omega
@@ -91,22 +91,22 @@ theorem Aval_le_one (ℓ i : Nat) : Aval D L u (fun ℓ => specCells D L leaves 
 
 /-- **total of the transfers between the ancestors of `a` and `b`** over the levels `u … L`, `u ≤ 2` -/
 theorem far_total (hu : u ≤ 2) :
-    (if u ≤ L then Aval D L u (fun ℓ => specCells D L leaves ℓ) b u (anc D L u a) +
-        sumA D L a (Aval D L u (fun ℓ => specCells D L leaves ℓ) b) u (L - u) else 0) =
+    (if u ≤ L then Aval D L u (fun ℓ => specCells D L leavesT ℓ) (fun ℓ => specCells D L leavesS ℓ) b u (anc D L u a) +
+        sumA D L a (Aval D L u (fun ℓ => specCells D L leavesT ℓ) (fun ℓ => specCells D L leavesS ℓ) b) u (L - u) else 0) =
       if Far.adj (decode D L a) (decode D L b) then 0 else 1 := by
-  have val01 : ∀ ℓ, Aval D L u (fun ℓ => specCells D L leaves ℓ) b ℓ (anc D L ℓ a) =
+  have val01 : ∀ ℓ, Aval D L u (fun ℓ => specCells D L leavesT ℓ) (fun ℓ => specCells D L leavesS ℓ) b ℓ (anc D L ℓ a) =
       if (u ≤ ℓ ∧ ℓ ≤ L ∧ 2 ≤ ℓ ∧ Far.inter (L - ℓ) (decode D L a) (decode D L b)) then 1 else 0 := by
     intro ℓ
-    have h1 := Aval_anc D L u leaves a b ha hb ℓ
-    have h2 := Aval_le_one D L u leaves a b ha hb ℓ (anc D L ℓ a)
+    have h1 := Aval_anc D L u leavesT leavesS a b ha hb ℓ
+    have h2 := Aval_le_one D L u leavesT leavesS a b ha hb ℓ (anc D L ℓ a)
     by_cases hc : (u ≤ ℓ ∧ ℓ ≤ L ∧ 2 ≤ ℓ ∧ Far.inter (L - ℓ) (decode D L a) (decode D L b))
     · rw [if_pos hc]; exact h1.2 hc
     · rw [if_neg hc]
-      have : ¬ Aval D L u (fun ℓ => specCells D L leaves ℓ) b ℓ (anc D L ℓ a) = 1 := fun e => hc (h1.1 e)
+      have : ¬ Aval D L u (fun ℓ => specCells D L leavesT ℓ) (fun ℓ => specCells D L leavesS ℓ) b ℓ (anc D L ℓ a) = 1 := fun e => hc (h1.1 e)
       omega
   by_cases hadj : Far.adj (decode D L a) (decode D L b)
   · rw [if_pos hadj]
-    have z : ∀ ℓ, Aval D L u (fun ℓ => specCells D L leaves ℓ) b ℓ (anc D L ℓ a) = 0 := by
+    have z : ∀ ℓ, Aval D L u (fun ℓ => specCells D L leavesT ℓ) (fun ℓ => specCells D L leavesS ℓ) b ℓ (anc D L ℓ a) = 0 := by
       intro ℓ
       rw [val01, if_neg]
       rintro ⟨_, _, _, hi⟩
@@ -119,7 +119,7 @@ theorem far_total (hu : u ≤ 2) :
       (decode_lt D L a) (decode_lt D L b) hadj
     have huL : u ≤ L := by omega
     rw [if_pos huL]
-    have ind : ∀ ℓ, u ≤ ℓ → ℓ ≤ L → Aval D L u (fun ℓ => specCells D L leaves ℓ) b ℓ (anc D L ℓ a) = if ℓ = L - k0 then 1 else 0 := by
+    have ind : ∀ ℓ, u ≤ ℓ → ℓ ≤ L → Aval D L u (fun ℓ => specCells D L leavesT ℓ) (fun ℓ => specCells D L leavesS ℓ) b ℓ (anc D L ℓ a) = if ℓ = L - k0 then 1 else 0 := by
       intro ℓ h1 h2
       rw [val01]
       by_cases he : ℓ = L - k0
